@@ -39,7 +39,33 @@ var specStatus = map[string]int{
 
 type c07 struct {
 	cur error
-	ch  *chain
+	// wmode: "" = starting or resuming an upload fails with cur; "write" = the backend's writer is
+	// handed out and its Write fails with cur; "commit" = its Commit fails with cur
+	wmode string
+	ch    *chain
+}
+
+// c07Writer is the backend's upload writer for the Writer* carriers.
+type c07Writer struct {
+	e  *c07
+	id string
+	n  int64
+}
+
+func (w *c07Writer) Write(p []byte) (int, error) {
+	if w.e.wmode == "write" {
+		return 0, w.e.cur
+	}
+	w.n += int64(len(p))
+	return len(p), nil
+}
+func (w *c07Writer) Close() error   { return nil }
+func (w *c07Writer) Size() int64    { return w.n }
+func (w *c07Writer) ChunkSize() int { return 4 }
+func (w *c07Writer) ID() string     { return w.id }
+func (w *c07Writer) Cancel() error  { return nil }
+func (w *c07Writer) Commit(d ociregistry.Digest) (ociregistry.Descriptor, error) {
+	return ociregistry.Descriptor{}, w.e.cur
 }
 
 const c07Digest = "sha256:e3b0c44298fc1c149afbf4c8996fb92427ae41e4649b934ca495991b7852b855"
@@ -47,6 +73,18 @@ const c07Digest = "sha256:e3b0c44298fc1c149afbf4c8996fb92427ae41e4649b934ca49599
 func newC07() *c07 {
 	e := &c07{}
 	f := &ociregistry.Funcs{NewError: func(ctx context.Context, method, repo string) error { return e.cur }}
+	f.PushBlobChunked_ = func(ctx context.Context, repo string, chunkSize int) (ociregistry.BlobWriter, error) {
+		if e.wmode == "" {
+			return nil, e.cur
+		}
+		return &c07Writer{e: e, id: "upload-1"}, nil
+	}
+	f.PushBlobChunkedResume_ = func(ctx context.Context, repo, id string, offset int64, chunkSize int) (ociregistry.BlobWriter, error) {
+		if e.wmode == "" {
+			return nil, e.cur
+		}
+		return &c07Writer{e: e, id: id}, nil
+	}
 	e.ch = newChain(f, 3, nil, nil)
 	return e
 }
@@ -140,7 +178,10 @@ func observeErr(err error) string {
 	return fmt.Sprintf("%s %s %s %s %s %s", st, code, msg, detail, tok(err.Error()), isv.String())
 }
 
-var c07Carriers = []string{"GetBlob", "GetBlobRange", "GetManifest", "GetTag", "ResolveBlob", "ResolveManifest", "ResolveTag",
+// Writer* carriers: the error comes out of the backend's BlobWriter, not out of a registry method.
+var c07WriterCarriers = map[string]string{"WriterWriteClose": "write", "WriterWriteCommit": "write", "WriterBigWrite": "write", "WriterCommit": "commit", "WriterWriteThenCommit": "commit"}
+
+var c07Carriers = []string{"WriterWriteClose", "WriterWriteCommit", "WriterBigWrite", "WriterCommit", "WriterWriteThenCommit", "GetBlob", "GetBlobRange", "GetManifest", "GetTag", "ResolveBlob", "ResolveManifest", "ResolveTag",
 	"PushManifest", "MountBlob", "PushBlob", "PushBlobChunked", "DeleteBlob", "DeleteManifest", "DeleteTag", "Repositories", "Tags", "Referrers"}
 
 func callCarrier(r ociregistry.Interface, carrier string) error {
@@ -152,6 +193,34 @@ func callCarrier(r ociregistry.Interface, carrier string) error {
 		return err
 	}
 	switch carrier {
+	case "WriterWriteClose", "WriterWriteCommit", "WriterBigWrite", "WriterCommit", "WriterWriteThenCommit":
+		w, err := r.PushBlobChunked(ctx, "foo/bar", 0)
+		if err != nil {
+			return fmt.Errorf("unexpected failure to start the upload: %v", err)
+		}
+		defer w.Close()
+		switch carrier {
+		case "WriterWriteClose": // the chunk travels with the PATCH that Close sends
+			if _, err := w.Write([]byte("x")); err != nil {
+				return err
+			}
+			return w.Close()
+		case "WriterBigWrite": // more than a chunk: the PATCH is sent by Write itself
+			_, err := w.Write([]byte("0123456789abcdef0123456789abcdef"))
+			if err == nil {
+				err = w.Close()
+			}
+			return err
+		case "WriterWriteCommit", "WriterWriteThenCommit": // the chunk travels with the committing PUT
+			if _, err := w.Write([]byte("x")); err != nil {
+				return err
+			}
+			_, err := w.Commit(c07Digest)
+			return err
+		default:
+			_, err := w.Commit(c07Digest)
+			return err
+		}
 	case "GetBlob":
 		return closeR(r.GetBlob(ctx, "foo/bar", c07Digest))
 	case "GetBlobRange":
@@ -227,7 +296,21 @@ func (e *c07) Impl(c Case) []string {
 				return "bad-op"
 			}
 			e.cur = err
-			return observeErr(callCarrier(e.ch.regs[n], t[3]))
+			e.wmode = c07WriterCarriers[t[3]]
+			obs := observeErr(callCarrier(e.ch.regs[n], t[3]))
+			if _, isWriter := c07WriterCarriers[t[3]]; isWriter && n > 0 {
+				// BlobWriter methods are not among the property's carriers for the message clause: the
+				// client and server add context to the message on purpose ("cannot close BlobWriter: …").
+				// Identity (status, code, detail, errors.Is) is compared; message and text are masked.
+				if f := strings.Split(obs, " "); len(f) == 6 {
+					if f[2] != "-" {
+						f[2] = "~"
+					}
+					f[4] = "~"
+					obs = strings.Join(f, " ")
+				}
+			}
+			return obs
 		})
 	}
 	return out
